@@ -46,7 +46,7 @@ func c09Exec(class string, m []byte) *core.Finding {
 	case res.Budget:
 		return mk("nontermination", "ReadPacket exceeded the step budget")
 	case p != nil:
-		return mk("accepted", fmt.Sprintf("ReadPacket accepted it as %q (err=%v)", clip(p.String(), 80), err))
+		return mk("accepted", fmt.Sprintf("ReadPacket accepted it as %q (err=%v)", clip(safeString(p), 80), err))
 	case err == nil:
 		return mk("no-error", "ReadPacket returned neither packet nor error")
 	}
